@@ -35,16 +35,26 @@ type GBVariant struct {
 	Field  string
 	Desc   bool
 	Batch  int
+	// how the harness consumes the output batches: prompt, hold, slow (see runOpts)
+	Consumer string
 }
 
 func (v GBVariant) String() string {
+	perm := fmt.Sprint(v.Perm)
+	if len(v.Perm) > 40 {
+		perm = fmt.Sprintf("[%d rows shuffled]", len(v.Perm))
+	}
+	cons := v.Consumer
+	if cons == "" {
+		cons = "prompt"
+	}
 	switch v.Mode {
 	case "direct":
-		return fmt.Sprintf("direct limit=%d perm=%v", v.Limit, v.Perm)
+		return fmt.Sprintf("direct limit=%d consumer=%s perm=%s", v.Limit, cons, perm)
 	case "partials":
-		return fmt.Sprintf("partials limit_out=%d limit_in=%d perm=%v", v.Limit2, v.Limit, v.Perm)
+		return fmt.Sprintf("partials limit_out=%d limit_in=%d consumer=%s perm=%s", v.Limit2, v.Limit, cons, perm)
 	}
-	return fmt.Sprintf("%s on %s desc=%v batch=%d limit=%d perm=%v", v.Mode, v.Field, v.Desc, v.Batch, v.Limit, v.Perm)
+	return fmt.Sprintf("%s on %s desc=%v batch=%d limit=%d consumer=%s perm=%s", v.Mode, v.Field, v.Desc, v.Batch, v.Limit, cons, perm)
 }
 
 var aggArgs = map[string][]string{
@@ -361,15 +371,15 @@ func partialsMutator(limitOut int) func(seq dag.Seq) error {
 }
 
 // run executes one variant on the real engine.
-func (c GBCase) run(v GBVariant) (fed []string, query string, out []zed.Value, zctx *zed.Context, err error) {
-	zctx = zed.NewContext()
+func (c GBCase) run(v GBVariant) (fed []string, query string, out []zed.Value, changed []string, err error) {
+	zctx := zed.NewContext()
 	rows := permute(c.Rows, v.Perm)
 	fed = rowsZ(rows)
 	vals, err := parseRows(zctx, fed)
 	if err != nil {
-		return fed, "", nil, zctx, fmt.Errorf("harness: %w", err)
+		return fed, "", nil, nil, fmt.Errorf("harness: %w", err)
 	}
-	var ro runOpts
+	ro := runOpts{consumer: v.Consumer, changed: &changed}
 	switch v.Mode {
 	case "direct":
 		query = c.query(v.Limit)
@@ -387,7 +397,7 @@ func (c GBCase) run(v GBVariant) (fed []string, query string, out []zed.Value, z
 		ro.mutate = partialsMutator(v.Limit2)
 	}
 	out, err = runQuery(query, zctx, vals, ro)
-	return fed, query, out, zctx, err
+	return fed, query, out, changed, err
 }
 
 // ---------------------------------------------------------------- comparison
@@ -669,12 +679,33 @@ func diffColumns(c GBCase, got, want []string) string {
 
 // checkGB runs every variant of the case and applies the oracle.
 func checkGB(c GBCase, seed uint64, tier string, skip map[int]bool, progress func(i int, what string), resp *CaseResp) error {
+	vars := c.variants(seed, tier)
+	// every third variant is read by a consumer that holds each batch across the
+	// next Pull, some by a slow one
+	for i := range vars {
+		switch {
+		case i%3 == 1:
+			vars[i].Consumer = "hold"
+		case i%7 == 3:
+			vars[i].Consumer = "slow"
+		}
+	}
+	return checkGBVariants(c, vars, skip, progress, resp)
+}
+
+func clip(s string, n int) string {
+	if len(s) > n {
+		return s[:n] + fmt.Sprintf(" ... (%d more bytes, see replay)", len(s)-n)
+	}
+	return s
+}
+
+func checkGBVariants(c GBCase, vars []GBVariant, skip map[int]bool, progress func(i int, what string), resp *CaseResp) error {
 	exp, err := c.expect()
 	if err != nil {
 		return err
 	}
 	bag := c.bag()
-	vars := c.variants(seed, tier)
 	resp.Counts["gb_cases"]++
 	resp.Counts["gb_profile_"+c.Profile]++
 	resp.Counts[fmt.Sprintf("gb_keys_%d", len(c.Keys))]++
@@ -695,12 +726,15 @@ func checkGB(c GBCase, seed uint64, tier string, skip map[int]bool, progress fun
 			continue
 		}
 		progress(vi, v.String())
-		fed, query, out, _, err := c.run(v)
+		fed, query, out, changed, err := c.run(v)
 		// a panicking operator goroutine closes its stream before the process dies:
 		// leave it a moment so that the crash is attributed to this variant
 		time.Sleep(time.Millisecond)
 		resp.Evals++
 		resp.Counts["gb_runs_"+v.Mode]++
+		if v.Consumer != "" {
+			resp.Counts["gb_runs_consumer_"+v.Consumer]++
+		}
 		spillable := v.Limit > 0 || (v.Mode == "partials" && v.Limit2 > 0)
 		if spillable && (v.Limit > 0 && v.Limit <= exp.distinctStrong || v.Limit2 > 0 && v.Limit2 < exp.distinctStrong) {
 			resp.Counts["gb_runs_spilling"]++
@@ -721,11 +755,26 @@ func checkGB(c GBCase, seed uint64, tier string, skip map[int]bool, progress fun
 				Kind: "oracle", Sig: "groupby-error:" + v.Mode + ":" + sigOfErr(err),
 				Detail:   fmt.Sprintf("group-by case %d (%s): %q over %d rows fails: %v", c.Idx, v.String(), query, len(fed), err),
 				Replay:   replay,
-				Expected: strings.Join(exp.strong, " | "), Observed: err.Error(),
+				Expected: clip(strings.Join(exp.strong, " | "), 20000), Observed: err.Error(),
 			})
 			continue
 		}
 		got := canonRows(out, bag)
+		if len(changed) > 0 {
+			// the operator rewrote a batch it had already handed to its consumer
+			sp := "nospill"
+			if spillable {
+				sp = "spill"
+			}
+			resp.Failures = append(resp.Failures, Failure{
+				Kind: "oracle", Sig: fmt.Sprintf("groupby-emitted-batch-changed:%s:%s", v.Mode, sp),
+				Detail: fmt.Sprintf("group-by case %d (%s): %q over %d rows: %s (%d batches changed); a consumer that keeps a batch referenced while pulling the next one sees %d rows, the naive evaluation has %d",
+					c.Idx, v.String(), query, len(fed), changed[0], len(changed), len(got), len(exp.strong)),
+				Replay:   replay,
+				Expected: "an emitted batch keeps its content until the consumer releases it", Observed: strings.Join(changed, "; "),
+			})
+			continue
+		}
 		if sameStrings(got, exp.strong) {
 			continue
 		}
@@ -770,9 +819,9 @@ func checkGB(c GBCase, seed uint64, tier string, skip map[int]bool, progress fun
 		}
 		resp.Failures = append(resp.Failures, Failure{
 			Kind: "oracle", Sig: sig,
-			Detail:   fmt.Sprintf("group-by case %d (%s): %q over %s returns %d rows that differ from the naive evaluation (%d rows)", c.Idx, v.String(), query, strings.Join(fed, " "), len(got), len(exp.strong)),
+			Detail:   fmt.Sprintf("group-by case %d (%s): %q over %s returns %d rows that differ from the naive evaluation (%d rows)", c.Idx, v.String(), query, clip(strings.Join(fed, " "), 3000), len(got), len(exp.strong)),
 			Replay:   replay,
-			Expected: strings.Join(exp.strong, " | "), Observed: strings.Join(got, " | "),
+			Expected: clip(strings.Join(exp.strong, " | "), 20000), Observed: clip(strings.Join(got, " | "), 20000),
 		})
 	}
 	if len(resp.Samples) == 0 {
